@@ -226,6 +226,16 @@ impl PType {
     }
 }
 
+/// A `PortableRegistry` holding exactly these entries, built without a struct
+/// literal (so that a private field added to the library's struct does not stop
+/// the harness from compiling): an empty registry whose public `types` field is
+/// then assigned.
+pub fn registry_of(types: Vec<PortableType>) -> PortableRegistry {
+    let mut r = PortableRegistry::from(scale_info::Registry::new());
+    r.types = types;
+    r
+}
+
 impl PReg {
     pub fn from_lib(r: &PortableRegistry) -> PReg {
         PReg {
@@ -238,13 +248,12 @@ impl PReg {
     }
 
     pub fn to_lib(&self) -> PortableRegistry {
-        PortableRegistry {
-            types: self
-                .types
+        registry_of(
+            self.types
                 .iter()
                 .map(|(id, t)| PortableType::new(*id, t.to_lib()))
                 .collect(),
-        }
+        )
     }
 
     pub fn len(&self) -> usize {
